@@ -264,7 +264,7 @@ def classify(case, o):
 
 # ---- C: other uses of a snapshot that holds user-controlled parts: never compared, membership, sub-snapshots in loops
 def gen_usage(rng, i):
-    kind = ["never", "in", "getitem_loop", "never"][i % 4]
+    kind = ["never", "in", "getitem_loop", "never", "in_nested", "bound_nested", "bound_fstring", "getitem_star"][i % 8]
     g = G(rng, agree=True)
     flags = tuple(rng.choice(proggen.flag_subsets()))
     if kind == "never":
@@ -294,6 +294,50 @@ def gen_usage(rng, i):
         lines = "".join(f"    R.append({valgen.render(t)} in s)\n" for t in tested)
         body = f"R = []\n\n\ndef test_a():\n    s = snapshot([{', '.join(elts)}])\n{lines}"
         allowed = {"trim"}                    # an element that is never tested may be trimmed as a whole
+    elif kind == "in_nested":
+        # members that are containers holding a user-controlled part (every member is tested: nothing to trim)
+        elts, tested = [], []
+        for _ in range(rng.randint(1, 3)):
+            a, b = rng.randint(0, 9), rng.randint(0, 9)
+            u = g.unmanaged(("int", a))
+            while u.startswith("snapshot(") or u.startswith("AnyValue"):
+                g.snips.pop()
+                u = g.unmanaged(("int", a))
+            shape = rng.choice(["[%s, %s]", "(%s, %s)", "{'k': %s, 'm': %s}"])
+            elts.append(shape % (u, render_atom(b, rng.random() < 0.5)))
+            tested.append(shape % (a, b))
+        if rng.random() < 0.4:
+            tested.append("[77]")
+        lines = "".join(f"    R.append({t} in s)\n" for t in tested)
+        body = f"R = []\n\n\ndef test_a():\n    s = snapshot([{', '.join(elts)}])\n{lines}"
+        allowed = set()
+    elif kind == "bound_nested":
+        # a bound that is a list holding a user-controlled part; the observed value equals the bound (only update could apply)
+        a, b = rng.randint(0, 9), rng.randint(0, 9)
+        u = g.unmanaged(("int", a))
+        while u.startswith("snapshot(") or u.startswith("AnyValue"):
+            g.snips.pop()
+            u = g.unmanaged(("int", a))
+        op = rng.choice(["<=", ">="])
+        body = f"def test_a():\n    assert [{a}, {b}] {op} snapshot([{u}, {render_atom(b, False)}])\n"
+        allowed = set()
+    elif kind == "bound_fstring":
+        # an f-string as the whole bound: equal (update), or the observed string lies on either side of it (fix / trim)
+        v = g.var(repr("m"))
+        txt = "f'{" + v + "} 5'"
+        g.snips.append(txt)
+        obs = rng.choice(["m 5", "a 5", "z 5"])
+        op = rng.choice(["<=", ">="])
+        body = f"def test_a():\n    R = {obs!r} {op} snapshot({txt})\n"
+        allowed = set()
+    elif kind == "getitem_star":
+        # a dict display holding a star-expression, used with [key]
+        base = rng.choice(["{}", "{'z': 0}"])
+        val = rng.randint(0, 9)
+        cur = rng.choice([val, val + 1])
+        body = f"BASE = {base}\n\n\ndef test_a():\n    s = snapshot({{**BASE, 'k': {cur}}})\n    R = s['k'] == {val}\n"
+        g.snips.append("**BASE")
+        allowed = set()
     else:
         n = rng.randint(2, 3)
         other = rng.choice(["1+1", "2", "'x'", "Is(K)"])
